@@ -108,37 +108,37 @@ type vfplCall struct {
 }
 
 type vfplWorld struct {
-	t      *testing.T
-	mu     sync.Mutex
-	seq    int64
-	fs     *vfsFS
-	n      *AbsfsNFS
-	srv    *Server
-	port   int
-	v6     bool
-	root   uint64
-	fhF    uint64
-	fhBig  uint64
-	fhD    uint64
-	hc     map[uint32][]vfplHookEv
-	relGo  map[int64]uint32
-	connGo map[int64]string
-	cm     map[string][]vfplCmEv
-	cmAll  []vfplCmEv
-	up     []string
-	sv     []string
-	conns  map[int]*vfplConn
-	steps  []M
-	calls  []*vfplCall
-	cfg    vfplCfg
-	lab    int // label of the policy installed last
-	xid    uint32
-	names  int
-	slow   int64 // conc: upper bound (microseconds) of the seeded delay before a backend operation
-	srnd   *rand.Rand
-	smu    sync.Mutex
+	t       *testing.T
+	mu      sync.Mutex
+	seq     int64
+	fs      *vfsFS
+	n       *AbsfsNFS
+	srv     *Server
+	port    int
+	v6      bool
+	root    uint64
+	fhF     uint64
+	fhBig   uint64
+	fhD     uint64
+	hc      map[uint32][]vfplHookEv
+	relGo   map[int64]uint32
+	connGo  map[int64]string
+	cm      map[string][]vfplCmEv
+	cmAll   []vfplCmEv
+	up      []string
+	sv      []string
+	conns   map[int]*vfplConn
+	steps   []M
+	calls   []*vfplCall
+	cfg     vfplCfg
+	lab     int // label of the policy installed last
+	xid     uint32
+	names   int
+	slow    int64 // conc: upper bound (microseconds) of the seeded delay before a backend operation
+	srnd    *rand.Rand
+	smu     sync.Mutex
 	stopped bool
-	opB    map[string]int
+	opB     map[string]int
 }
 
 var vfplCur atomic.Pointer[vfplWorld]
